@@ -424,6 +424,22 @@ func checkCache(h *History, vs []*opView) {
 					liveUntil := prev.reply.At + upMin + prev.lifetime - 2*time.Second
 					if sr.reply.At+upMax+sigma < liveUntil && v.o.SentAt+clMax < liveUntil && ample && prev.groupKnown && sr.groupKnown && sr.group == prev.group {
 						h.S.Fail("C08", "error-displaced-positive", "%s: served negative serial %d (rcode %d) although positive serial %d, fetched %v earlier with lifetime %v, was still live", name, sr.serial, sr.rcode, prev.serial, sr.reply.At-prev.reply.At, prev.lifetime)
+						// the same observation is C19's "a failed refresh leaves the old entry
+						// usable" when the negative answer was fetched by a background
+						// refresh: inside the old entry's last quarter, with no request
+						// waiting for it
+						if sr.reply.QueryAt >= prev.reply.At+upMin+prev.lifetime*3/4-time.Second && len(sr.groups) > 0 {
+							waiting := false
+							for _, w := range vs {
+								if w.q != nil && w.o.Op.Raw == nil && len(w.q.Q) == 1 && w.o.Op.Token == sr.token && peers.KeyOf(w.lower, w.q.Q[0].Class, w.q.Q[0].Type) == sr.key &&
+									w.o.SentAt <= sr.reply.QueryAt && (len(w.o.Resps) == 0 || w.o.Resps[0].At >= sr.reply.At) {
+									waiting = true
+								}
+							}
+							if !waiting {
+								h.S.Fail("C19", "failed-refresh-replaced-entry", "%s: the background refresh of a live entry (positive serial %d) was answered with rcode %d (serial %d) and that answer replaced the entry", name, prev.serial, sr.rcode, sr.serial)
+							}
+						}
 					}
 				}
 			}
@@ -541,6 +557,24 @@ func checkCache(h *History, vs []*opView) {
 				// abandon it; the server cannot tell that copy from a refresh, so the
 				// invariant is only evaluated for keys whose exchanges all succeed.
 				if !allActs(h.RP.Tokens[a.token], replyAct) {
+					continue
+				}
+				// a query that follows an unanswered one of the same key whose
+				// connection the proxy has dropped meanwhile (a malformed reply to
+				// anybody on a pipelined connection takes all its exchanges down) is
+				// that exchange being sent again, not a new decision to fetch
+				resend := func(x *serialRec) bool {
+					for _, c := range list {
+						if c == x || c.reply.QueryAt >= x.reply.QueryAt || c.reply.At <= x.reply.QueryAt {
+							continue
+						}
+						if e := end(c); e <= x.reply.QueryAt && e < c.reply.At {
+							return true
+						}
+					}
+					return false
+				}
+				if resend(a) || resend(b) {
 					continue
 				}
 				if b.reply.QueryAt < end(a) && a.reply.QueryAt < end(b) {
